@@ -44,11 +44,14 @@ func SortVersions(vs []Version) {
 	}
 	sort.Slice(vs, func(i, j int) bool {
 		vi, vj := vers[vs[i].VersionKey], vers[vs[j].VersionKey]
-		if vi == nil || vj == nil {
-			// Does this make any sense at all?
-			return vs[i].Version < vs[j].Version
+		if vi != nil && vj != nil {
+			if c := vi.Compare(vj); c != 0 {
+				return c < 0
+			}
 		}
-		return vi.Compare(vj) < 0
+		// Unparsable, or equal but spelled differently ("1.0", "1.0.0"):
+		// order by the strings, so that the order is total.
+		return vs[i].Version < vs[j].Version
 	})
 }
 
